@@ -26,7 +26,7 @@ RULE = ("O1: calculate()/validate() of the repo against a bitwise CRC-16/MODBUS 
 ASSUMPTIONS = ["refproto.crc16 (bitwise) is anchored by every CRC printed in the vendor PDFs",
                "SimNet models TCP delivery; fidelity cross-check in C07 thorough",
                "inductive extension of the CRC to all lengths is not claimed"]
-REQUIRED_OBS = ["damaged_copy_after_intact_original", "corner_frames_delivered", "crc_strings", "corrupt_resets", "probe_after_reset_delivered"]
+REQUIRED_OBS = ["same_damaged_frame_on_two_connections", "damaged_copy_after_intact_original", "corner_frames_delivered", "crc_strings", "corrupt_resets", "probe_after_reset_delivered"]
 BUDGET = {"quick": 100, "thorough": 1500}
 
 MAX_PROBE_BYTES = 65535
@@ -308,7 +308,7 @@ def flip(raw, gen, bits):
     return bytes(b)
 
 
-def run_corrupt_one(gen, kind, raw_a, raw_b_intact, bits):
+def run_corrupt_one(gen, kind, raw_a, raw_b_intact, bits, again=False):
     """Deliver intact A, damaged B, then probes.  Returns (violations, obs)."""
     damaged = flip(raw_b_intact, gen, bits)
     base_a = baseline_delivery(gen, raw_a)
@@ -347,6 +347,18 @@ def run_corrupt_one(gen, kind, raw_a, raw_b_intact, bits):
         n_before = len(w.msgs)
         q = F.probe_frame(gen, 250)
         got_q = False
+        again_res = None
+        if reopened and again and len(damaged) == len(raw_b_intact):
+            # the very same damaged frame once more, first thing on the new connection (a
+            # persistent corruption): dropped again, connection re-established again
+            c2.transport.peer_data(damaged)
+            await quiesce(loop)
+            again_res = {"delivered": len(w.msgs) - n_before, "closed": not c2.open}
+            await asyncio.sleep(0.01)
+            await quiesce(loop)
+            n_before = len(w.msgs)
+            c2 = net.current()
+            reopened = c2 is not None
         if reopened:
             c2.transport.peer_data(q)
             await quiesce(loop)
@@ -355,7 +367,7 @@ def run_corrupt_one(gen, kind, raw_a, raw_b_intact, bits):
         deliveries = [(cid, describe(h, m)) for cid, h, m in w.msgs[:n_before]]
         maxopen = net.max_open
         await w.close()
-        return {"stream": bytes(stream), "closed": closed, "reopened": reopened,
+        return {"stream": bytes(stream), "closed": closed, "reopened": reopened, "again": again_res,
                 "got_q": got_q, "deliveries": deliveries, "c1": c1.id,
                 "probe_bytes": sent_probe_bytes, "max_open": maxopen}
 
@@ -402,6 +414,14 @@ def run_corrupt_one(gen, kind, raw_a, raw_b_intact, bits):
     if not out["closed"]:
         v("no-reset-after-damaged-frame", probe_bytes=out["probe_bytes"])
         return viol, obs
+    if out.get("again") is not None:
+        if out["again"]["delivered"]:
+            v("damaged-frame-delivered", note="same damaged frame again on the next connection")
+        elif not out["again"]["closed"]:
+            v("no-reset-after-damaged-frame", note="same damaged frame again on the next "
+              "connection")
+        else:
+            obs["same_damaged_frame_on_two_connections"] = 1
     obs["corrupt_resets"] = 1
     if not out["reopened"]:
         v("no-reconnect-after-damaged-frame")
@@ -474,8 +494,10 @@ def run_case(case):
     viol = []
     obs = {}
     decided = 0
-    for bits in case["patterns"]:
-        vv, oo = run_corrupt_one(gen, kind, raw_a, raw_b, bits)
+    for pi, bits in enumerate(case["patterns"]):
+        # (not with a damaged length field: the copy alone would not be a complete frame)
+        vv, oo = run_corrupt_one(gen, kind, raw_a, raw_b, bits,
+                                 again=pi % 5 == 0 and not any(32 <= b < 48 for b in bits))
         if not vv and max(bits) < 48:
             # damage confined to the covered header bytes: also with the intact frame itself
             # (same payload, same check bytes) delivered right before its damaged copy
